@@ -195,6 +195,9 @@ class CFG:
                 elif isinstance(a, ast.AugAssign):
                     if isinstance(a.target, ast.Name):
                         self.defs_at[n].append(Def(a.target.id, n, "aug", a, None, a))
+                    elif (isinstance(a.target, ast.Attribute) and isinstance(a.target.value, ast.Name) and self.params
+                          and a.target.value.id == self.params[0]):
+                        self.defs_at[n].append(Def(f"{a.target.value.id}.{a.target.attr}", n, "aug", a, None, a))
                 elif isinstance(a, (ast.Import, ast.ImportFrom)):
                     for al in a.names:
                         nm = (al.asname or al.name).split(".")[0]
@@ -266,7 +269,12 @@ class CFG:
                 self._target_defs(n, e, value, path + (i,), kind, stmt)
         elif isinstance(target, ast.Starred):
             self._target_defs(n, target.value, value, path + ("*",), kind, stmt)
-        # attribute / subscript targets are stores, not local definitions
+        elif (isinstance(target, ast.Attribute) and isinstance(target.value, ast.Name) and self.params
+              and target.value.id == self.params[0] and kind in ("assign", "unpack")):
+            # `self.x = ...` inside a method: a flow-sensitive pseudo-variable "self.x"
+            k = "unpack" if path else "assign"
+            self.defs_at[n].append(Def(f"{target.value.id}.{target.attr}", n, k, value, path if path else None, stmt))
+        # other attribute / subscript targets are stores, not local definitions
 
     # -- queries ----------------------------------------------------------------------
     def node_for(self, a: ast.AST) -> Node | None:
